@@ -28,7 +28,8 @@ EXTENDS NanoISA
 CONSTANTS Dev,        \* SUBSET DevNames: deviations listed as known findings
           MaxBody,    \* length bound of the exhaustive jump-shape family
           MaxHostile, \* length bound of the family with raw (non-label) jump operands
-          RealFile    \* ndjson file with module dumps of real (compiler-produced) modules, or ""
+          RealFile,   \* ndjson file with module dumps of real (compiler-produced) modules, or ""
+          Alts        \* BOOLEAN: second pass - print Alternatives(m) for the modules of RealFile
 
 DevNames == {"DISASM_LABEL_MIDINSTR",   \* a label is invented for a jump target inside an instruction and never defined
              "ASM_PATCH_FIXUP",          \* a literal I32 operand steals the pending patch of the previous label reference
@@ -212,6 +213,17 @@ Blame(m) == LET full == RT(m, Dev) IN
                      one == {d \in Dev : RT(m, {d}).kind # "same"} IN
                  IF need # {} THEN need ELSE IF one # {} THEN one ELSE Dev
 
+\* second pass, for modules whose real outcome is not RT(m, Dev) (e.g. a listed deviation has been repaired but is
+\* still listed): the outcome under every subset of the deviations that matter for m on their own
+BlameIn(m, D) == LET full == RT(m, D) IN
+                 IF full.kind = "same" THEN {}
+                 ELSE LET need == {d \in D : RT(m, D \ {d}) # full} IN IF need # {} THEN need ELSE D
+Relevant(m) == {d \in Dev : RT(m, {d}).kind # "same"}
+Candidates(m) == LET rel == Relevant(m) IN
+                 IF Cardinality(rel) <= 5 THEN SUBSET rel \ {{}}
+                 ELSE {{d} : d \in rel} \cup {rel \ {d} : d \in rel} \cup {rel}
+Alternatives(m) == {[dev |-> D, pred |-> RT(m, D), blame |-> BlameIn(m, D)] : D \in Candidates(m)}
+
 (* ------------------------------------------------------- generated families *)
 \* (the families take a dummy argument only because TLC evaluates zero-arity constant definitions eagerly)
 ValidOps == {b \in Opcodes : Valid(b)}
@@ -312,7 +324,9 @@ EmitReal(x) == LET p == RT(x.m, Dev) IN
 \* (kase, kst are the variables of the codec configuration of NanoISA; they are parked here)
 TInit == tc \in (IF RealFile = "" THEN Generated(0) ELSE FamReal(0)) /\ tst = "new" /\ kase = 0 /\ kst = "text"
 TCheck == /\ tst = "new"
-          /\ PrintT("@@J " \o ToJson(IF tc.fam = "real" THEN EmitReal(tc) ELSE EmitText(tc)))
+          /\ PrintT("@@J " \o ToJson(IF tc.fam # "real" THEN EmitText(tc)
+                                    ELSE IF Alts THEN [fam |-> "alts", idx |-> tc.idx, alts |-> Alternatives(tc.m)]
+                                    ELSE EmitReal(tc)))
           /\ tst' = "done" /\ UNCHANGED <<tc, kase, kst>>
 TNext == TCheck
 
